@@ -354,6 +354,31 @@ func c20Body(p c20Params, out *c20Obs) func() {
 			if _, err := w.client.Get(g); err != nil {
 				out.note = "later discovery failed: " + err.Error()
 			}
+		case "split-only-region", "merge-only-regions":
+			// the only cached region(s) of a server are replaced by new ones on the SAME server:
+			// its healthy connection must be reused, not forgotten and dialled again
+			cl.AddTable("t5", nil, []string{"rs5:1"})
+			if p.phase2 == "merge-only-regions" {
+				cl.DropTable("t5")
+				cl.AddTable("t5", []string{"m"}, []string{"rs5:1"})
+			}
+			for _, k := range []string{"a", "x"} {
+				g, _ := hrpc.NewGetStr(context.Background(), "t5", k)
+				if _, err := w.client.Get(g); err != nil {
+					out.note = "t5 warm-up failed: " + err.Error()
+				}
+			}
+			if p.phase2 == "merge-only-regions" {
+				cl.Merge(regionOf(cl, "t5", "a"), regionOf(cl, "t5", "x"), "rs5:1")
+			} else {
+				cl.Split(regionOf(cl, "t5", "a"), "m", "rs5:1", "rs5:1")
+			}
+			for _, k := range []string{"a", "x", "a"} {
+				g, _ := hrpc.NewGetStr(context.Background(), "t5", k)
+				if _, err := w.client.Get(g); err != nil {
+					out.note = "request after split/merge failed: " + err.Error()
+				}
+			}
 		case "connfail":
 			cl.ResetConns("rs1:1")
 			for i := 0; i < p.callers; i++ {
@@ -414,6 +439,9 @@ func c20Check(p c20Params, out *c20Obs) func(res *vrt.Result) *explore.Finding {
 		if d := out.dialed["rs1:1"]; d > want {
 			return &explore.Finding{Class: "server-dialled-more-often-than-needed", Msg: fmt.Sprintf("rs1:1 was dialled %d times, %d expected (connections created %v)\n%s", d, want, out.created, p)}
 		}
+		if d := out.dialed["rs5:1"]; d > 1 {
+			return &explore.Finding{Class: "healthy-connection-not-reused", Msg: fmt.Sprintf("rs5:1 was dialled %d times although its connection never failed\n%s", d, p)}
+		}
 		if d := out.dialed["rs0:1"]; d > 1 {
 			return &explore.Finding{Class: "server-dialled-more-often-than-needed", Msg: fmt.Sprintf("meta server dialled %d times\n%s", d, p)}
 		}
@@ -425,7 +453,10 @@ func c20Units(thorough bool) []*explore.Unit {
 	var units []*explore.Unit
 	for _, n := range []int{2, 3, 4} {
 		for _, callers := range []int{n, n + 1} {
-			for _, ph := range []string{"", "later-discovery", "connfail"} {
+			for _, ph := range []string{"", "later-discovery", "connfail", "split-only-region", "merge-only-regions"} {
+				if strings.Contains(ph, "only-region") && callers != n {
+					continue
+				}
 				if callers > 3 && !thorough && ph == "connfail" {
 					continue
 				}
